@@ -515,7 +515,13 @@ class IPPO(MultiAgentRLAlgorithm):
         :rtype: ExperiencesType
         """
         shared = {homo_id: {} for homo_id in self.shared_agent_ids}
-        for agent_id, inp in input.items():
+        # Members of a group are collected in the order of self.agent_ids for every component,
+        # whatever the key order of the individual dictionaries
+        ordered_ids = [a for a in self.agent_ids if a in input] + [
+            a for a in input if a not in self.agent_ids
+        ]
+        for agent_id in ordered_ids:
+            inp = input[agent_id]
             homo_id = self.get_homo_id(agent_id)
             shared[homo_id][agent_id] = stack_experiences(inp, to_torch=False)[0]
 
